@@ -36,7 +36,7 @@ ASSUMPTIONS = [
     "no other live node has taken over a serialized id at deserialization time (alive-subsets arise from dropping handles / detaching whole trees)",
     "Any-typed properties, NaN/inf, lone surrogates and ints beyond 64 bits are outside the generator",
 ]
-MUST_SEE = ["recreated_with_suffix_id", "shared_subtrees", "fresh_process_cases", "subforest_alive", "none_alive", "all_alive", "multi_origin", "hostile_strings", "index_sources", "yaml", "msgpck", "json", "failed_call_before_roundtrip"]
+MUST_SEE = ["union_field_non_first_member", "other_dialect_call_before_roundtrip", "recreated_with_suffix_id", "shared_subtrees", "fresh_process_cases", "subforest_alive", "none_alive", "all_alive", "multi_origin", "hostile_strings", "index_sources", "yaml", "msgpck", "json", "failed_call_before_roundtrip"]
 CONFIG = {
     "quick": {"shards": 16, "trees": 60, "fresh": 6, "watchdog_s": 600},
     "thorough": {"shards": 32, "trees": 400, "fresh": 60, "watchdog_s": 3400},
@@ -160,6 +160,14 @@ def run_shard(ctx):
         rng = ctx.rng(case)
         tg = G.TreeGen(rng, U, max_nodes=rng.choice([3, 8, 16]), max_depth=5, max_width=4, share=0.15 if case % 3 == 0 else 0.0, twin=0.25, p_origin=0.6, hostile=0.0, exclude=(f"{P}Ser",))  # a per-instance init=False value cannot round-trip (don't-care)
         s = tg.tree()
+        directed_union = case % 6 == 5
+        if directed_union:
+            # union-typed child fields holding non-first members, shared or not (alive modes below keep exactly these alive)
+            un = S(f"{P}Un", {"op": "~"}, {"child": S(f"{P}Leaf", {"v": rng.randrange(100)})}, O.gen_origin(rng))
+            fal = S(f"{P}Falsy", {"v": rng.randrange(100)})
+            mix = S(f"{P}Mix", {}, {"kids": (S(f"{P}Leaf", {"v": 1}), un, un if rng.random() < 0.6 else deep_copy(un))})
+            s = S(f"{P}List", {}, {"items": (mix, s) if issubclass(U.cls[s.cls], U.cls[f"{P}Expr"]) else (mix,), "root": fal})
+            ctx.count("union_field_non_first_member")
         hostile_values(rng, U, s)
         fp = G.shape_fingerprint(U, s)
         if case < 1 and ctx.shard == 0:
@@ -209,6 +217,8 @@ def run_shard(ctx):
                 ctx.count("all_alive")
             elif alive_mode == "subforest":
                 cands = [(p, n) for p, n in paths if p]
+                if directed_union and rng.random() < 0.7:
+                    cands = [(p, n) for p, n in cands if type(n).__name__ in (f"{P}Un", f"{P}Falsy")]
                 for p, n in rng.sample(cands, min(len(cands), rng.randint(1, 2))):
                     keep[p] = n
                 if keep:
@@ -233,6 +243,21 @@ def run_shard(ctx):
             del paths, root
             n = p = q = m = None
             collect()
+            if rng.random() < 0.3:
+                # unrelated earlier calls with other dialects / options (their output is of no interest here)
+                ctx.count("other_dialect_call_before_roundtrip")
+                from pyoak.node import AST_SERIALIZE_DIALECT_KEY, ASTSerializationDialects
+
+                tmp = U.cls[f"{P}Un"](child=U.cls[f"{P}Leaf"](v=case, origin=O.build_origin(("code", case % O.N_SOURCES, 1, 3))), op="n")
+                for dia in (ASTSerializationDialects.AST_TEST, ASTSerializationDialects.AST_EXPLORER):
+                    try:
+                        tmp.as_dict(serialization_options={AST_SERIALIZE_DIALECT_KEY: dia})
+                        tmp.to_json(serialization_options={AST_SERIALIZE_DIALECT_KEY: dia, SerializationOption.SORT_KEYS: True})
+                    except Exception:  # noqa: BLE001
+                        pass
+                tmp.child.detach()
+                tmp.detach()
+                del tmp
             if rng.random() < 0.25:
                 # an earlier call that fails part-way (unknown type tag below the root, index-based sources requested)
                 ctx.count("failed_call_before_roundtrip")
